@@ -214,6 +214,7 @@ func (s *Map[K, V]) Store(key K, value V) {
 	for {
 		nodeFound := s.findNode(key, &preds, &succs)
 		if nodeFound != nil { // indicating the key is already in the skip-list
+			verifYield(6)
 			// Removals set `marked` while holding the node lock: replace the value under the same
 			// lock, otherwise the value could be stored into a node that has just been deleted
 			// (the Store would be lost while LoadAndDelete returns the old value).
@@ -257,12 +258,14 @@ func (s *Map[K, V]) Store(key K, value V) {
 			unlock(preds, highestLocked)
 			continue
 		}
+		verifYield(2)
 
 		nn := newNode[K, V](key, value, level, s.comparator)
 		for layer := 0; layer < level; layer++ {
 			nn.storeNext(layer, succs[layer])
 			preds[layer].atomicStoreNext(layer, nn)
 		}
+		verifYield(3)
 		nn.flags.SetTrue(fullyLinked)
 		unlock(preds, highestLocked)
 		atomic.AddInt64(&s.length, 1)
@@ -279,6 +282,7 @@ func (s *Map[K, V]) randomlevel() int {
 		if int64(level) <= hl {
 			break
 		}
+		verifYield(4)
 		if atomic.CompareAndSwapInt64(&s.highestLevel, hl, int64(level)) {
 			break
 		}
@@ -300,6 +304,7 @@ func (s *Map[K, V]) Load(key K) (value V, ok bool) {
 
 		// Check if the key already in the skip list.
 		if nex != nil && nex.equal(key, s.comparator) {
+			verifYield(5)
 			if nex.flags.MGet(fullyLinked|marked, fullyLinked) {
 				return nex.loadVal(), true
 			}
@@ -335,6 +340,7 @@ func (s *Map[K, V]) LoadAndDelete(key K) (value V, loaded bool) {
 				}
 				nodeToDelete.flags.SetTrue(marked)
 				isMarked = true
+				verifYield(1)
 			}
 			// Accomplish the physical deletion.
 			var (
@@ -387,6 +393,7 @@ func (s *Map[K, V]) LoadOrStore(key K, value V) (actual V, loaded bool) {
 	for {
 		nodeFound := s.findNode(key, &preds, &succs)
 		if nodeFound != nil { // indicating the key is already in the skip-list
+			verifYield(6)
 			if !nodeFound.flags.Get(marked) {
 				for !nodeFound.flags.Get(fullyLinked) {
 					// The node is not yet fully linked (Load and Delete do not see it yet),
@@ -433,12 +440,14 @@ func (s *Map[K, V]) LoadOrStore(key K, value V) (actual V, loaded bool) {
 			unlock(preds, highestLocked)
 			continue
 		}
+		verifYield(2)
 
 		nn := newNode(key, value, level, s.comparator)
 		for layer := 0; layer < level; layer++ {
 			nn.storeNext(layer, succs[layer])
 			preds[layer].atomicStoreNext(layer, nn)
 		}
+		verifYield(3)
 		nn.flags.SetTrue(fullyLinked)
 		unlock(preds, highestLocked)
 		atomic.AddInt64(&s.length, 1)
@@ -459,6 +468,7 @@ func (s *Map[K, V]) LoadOrStoreLazy(key K, f func() V) (actual V, loaded bool) {
 	for {
 		nodeFound := s.findNode(key, &preds, &succs)
 		if nodeFound != nil { // indicating the key is already in the skip-list
+			verifYield(6)
 			if !nodeFound.flags.Get(marked) {
 				for !nodeFound.flags.Get(fullyLinked) {
 					// The node is not yet fully linked (Load and Delete do not see it yet),
@@ -505,12 +515,14 @@ func (s *Map[K, V]) LoadOrStoreLazy(key K, f func() V) (actual V, loaded bool) {
 			unlock(preds, highestLocked)
 			continue
 		}
+		verifYield(2)
 		value := f()
 		nn := newNode(key, value, level, s.comparator)
 		for layer := 0; layer < level; layer++ {
 			nn.storeNext(layer, succs[layer])
 			preds[layer].atomicStoreNext(layer, nn)
 		}
+		verifYield(3)
 		nn.flags.SetTrue(fullyLinked)
 		unlock(preds, highestLocked)
 		atomic.AddInt64(&s.length, 1)
@@ -542,6 +554,7 @@ func (s *Map[K, V]) Delete(key K) bool {
 				}
 				nodeToDelete.flags.SetTrue(marked)
 				isMarked = true
+				verifYield(1)
 			}
 			// Accomplish the physical deletion.
 			var (
